@@ -370,7 +370,7 @@ func init() {
 		samples := []any{all[0], all[len(all)/2], all[len(all)-1]}
 		ev := &common.Evidence{PropertyID: prop, Tier: tier, Seed: common.Seed(), Level: "exploration", WallS: time.Since(t0).Seconds(), Violations: len(rep.Violations),
 			Coverage: map[string]any{"evaluations": cases, "distinct_nontrivial": len(digests),
-				"rule": "every single call, every ordered pair of calls (sequential and concurrent) and every triple whose first two calls are lifecycle/mutating calls (thorough: any third call, plus 4-call lifecycle sequences) from the menu, issued on the target node in each of 9 base states of a 3-voter cluster (+1 cold spare); after the calls the cluster runs on through default events and an election timeout on every node; distinct_nontrivial = number of distinct final states reached (by canonical state key) plus failure classes",
+				"rule":    "every single call, every ordered pair of calls (sequential and concurrent) and every triple whose first two calls are lifecycle/mutating calls (thorough: any third call, plus 4-call lifecycle sequences) from the menu, issued on the target node in each of 9 base states of a 3-voter cluster (+1 cold spare); after the calls the cluster runs on through default events and an election timeout on every node; distinct_nontrivial = number of distinct final states reached (by canonical state key) plus failure classes",
 				"samples": samples, "bases": len(apiBases), "menu": apiMenu, "exhaustive": !deadline, "cases_planned": len(all)},
 			Assumptions: []string{"canonical goroutine interleaving inside each step (schedule enumeration of API calls against background activity is part of C20's scenarios)", "futures are polled, Await's own select is not driven by virtual time"}}
 		if err := ev.Write(); err != nil {
